@@ -104,13 +104,14 @@ class Pins:
 
     vals: dict[str, frozenset[str]] = field(default_factory=dict)
     facts: dict[str, bool] = field(default_factory=dict)
+    entry: bool = False  # True: the assumptions hold at function entry only (they die with mutation / rebinding)
 
     @staticmethod
-    def of(vals: Optional[dict[str, Iterable[str] | str]] = None, facts: Optional[dict[str, bool]] = None) -> "Pins":
+    def of(vals: Optional[dict[str, Iterable[str] | str]] = None, facts: Optional[dict[str, bool]] = None, entry: bool = False) -> "Pins":
         pv: dict[str, frozenset[str]] = {}
         for key, val in (vals or {}).items():
             pv[norm(key)] = frozenset([val]) if isinstance(val, str) else frozenset(val)
-        return Pins(pv, {norm(k): v for k, v in (facts or {}).items()})
+        return Pins(pv, {norm(k): v for k, v in (facts or {}).items()}, entry)
 
 
 def norm(text: str) -> str:
@@ -369,6 +370,10 @@ class Interp:
     # ------------------------------------------------------------------ driver
     def _run(self) -> None:
         st = State()
+        if self.pins.entry:
+            st.facts.update(self.pins.facts)
+            st.vals.update(self.pins.vals)
+            self.pins = Pins()
         node = self.func.node
         if isinstance(node, ast.Lambda):
             self._record(node.body, st)
@@ -999,6 +1004,8 @@ class Interp:
                 return False
             if rt == "None":
                 return self._eval_none(left, st)
+            if self._fact(f"{key} is None", st) is True:
+                return False
             return None
         if unparse(left) == unparse(right):
             return True
@@ -1028,6 +1035,12 @@ class Interp:
                 return True
             if all(r is False for r in results):
                 return False
+        if isinstance(right, ast.Name) and right.id not in self.locals and const_token(left) is not None:
+            try:
+                folded = self.prg.fold(self.func.module, right)
+                return ast.literal_eval(const_token(left)) in folded  # type: ignore[operator,arg-type]
+            except (ValueError, TypeError, SyntaxError):
+                pass
         return self._fact(f"{unparse(left)} in {unparse(right)}", st)
 
     def _eval_none(self, node: ast.expr, st: State) -> Optional[bool]:
